@@ -324,38 +324,10 @@ def evaluate_z3_re_union(
 
 
 def evaluate_z3_re_comp(expr: z3.ExprRef, _) -> Maybe[Z3EvalResult]:
-    if expr.decl().name() != "re.comp":
-        return Nothing
-
-    # The argument must be a union of strings or a range.
-    child = expr.children()[0]
-    if not (
-        child.decl().kind() == z3.Z3_OP_RE_UNION
-        and all(
-            grandchild.decl().kind() == z3.Z3_OP_SEQ_TO_RE
-            for grandchild in child.children()
-        )
-        or child.decl().name() == "re.range"
-    ):
-        return Nothing
-
-    maybe_children_result: Maybe[Tuple[Z3EvalResult]] = result_to_maybe(
-        reduce(
-            lambda acc, maybe_child_result: acc.map(
-                lambda some_acc: maybe_child_result.map(
-                    lambda child_result: some_acc + (child_result,)
-                )
-            ),
-            map(evaluate_z3_expression, child.children()),
-            Success(()),
-        )
-    )
-
-    return maybe_children_result.map(
-        lambda children_result: construct_result(
-            lambda args: "[^" + "".join(args) + "]", children_result
-        )
-    )
+    # A negated character class is not the complement of a *language* (re.comp also
+    # contains the empty string and all longer strings). Complements are therefore
+    # not translated to a Python regular expression but left to the Z3 fallback.
+    return Nothing
 
 
 def evaluate_z3_re_full_set(expr: z3.ExprRef, _) -> Maybe[Z3EvalResult]:
